@@ -33,27 +33,33 @@ def st_name(s):
 class Config:
     """cls: one of the names below; params: tuple of plain python values;
     N: true number of steps; passes: adjoint passes requested."""
-    __slots__ = ("cls", "params", "N", "passes")
+    __slots__ = ("cls", "params", "N", "passes", "np")
 
-    def __init__(self, cls, params, N, passes=1):
+    def __init__(self, cls, params, N, passes=1, np=False):
         self.cls = cls
         self.params = tuple(params)
         self.N = N
         self.passes = passes
+        self.np = np          # integers are handed over as numpy.int64
 
     def as_json(self):
-        return {"cls": self.cls, "params": list(self.params), "N": self.N,
-                "passes": self.passes}
+        d = {"cls": self.cls, "params": list(self.params), "N": self.N,
+             "passes": self.passes}
+        if self.np:
+            d["np"] = True
+        return d
 
     @staticmethod
     def from_json(d):
-        return Config(d["cls"], tuple(d["params"]), d["N"], d.get("passes", 1))
+        return Config(d["cls"], tuple(d["params"]), d["N"], d.get("passes", 1),
+                      d.get("np", False))
 
     def __repr__(self):
-        return f"{self.cls}{self.params} N={self.N} passes={self.passes}"
+        return (f"{self.cls}{self.params} N={self.N} passes={self.passes}"
+                + (" [numpy ints]" if self.np else ""))
 
     def key(self):
-        return (self.cls, self.params, self.N, self.passes)
+        return (self.cls, self.params, self.N, self.passes, self.np)
 
 
 def build(cfg):
@@ -64,6 +70,11 @@ def build(cfg):
     HRevolve: (ram, disk, uf, ub, wd, rd)
     """
     c, p, N = cfg.cls, cfg.params, cfg.N
+    if cfg.np:
+        import numpy
+        N = numpy.int64(N)
+        p = tuple(numpy.int64(x) if isinstance(x, int)
+                  and not isinstance(x, bool) else x for x in p)
     with common.quiet():
         if c == "SingleMemory":
             return API.SingleMemoryStorageSchedule()
@@ -340,7 +351,11 @@ def drive(cfg, observers=True, post_calls=3):
             try:
                 # a fresh int object: equal to, but not identical with, any
                 # integer the schedule holds
-                sched.finalize(n=int(str(N)))
+                if cfg.np:
+                    import numpy
+                    sched.finalize(n=numpy.int64(N))
+                else:
+                    sched.finalize(n=int(str(N)))
                 finalised = True
             except Exception as e:  # noqa: BLE001
                 run.obs_fail(["C08", "C10"], "finalize_rejected",
@@ -604,6 +619,17 @@ def box_large(tier):
         out.append(Config("HRevolve", (3, 2) + d, n))
         out.append(Config("DiskRevolve", (2,) + d, n))
         out.append(Config("PeriodicDiskRevolve", (2,) + d, n))
+    # integers handed over as numpy.int64 (what array code passes around)
+    for n in (3, 12):
+        out.append(Config("Multistage", (2, 1, "maximum"), n, 1, True))
+        out.append(Config("Mixed", (2, "DISK"), n, 1, True))
+        out.append(Config("TwoLevel", (3, 1, "RAM", "maximum"), n, 2, True))
+        out.append(Config("Revolve", (2,) + d, n, 1, True))
+        out.append(Config("HRevolve", (1, 1) + d, n, 1, True))
+        out.append(Config("DiskRevolve", (1,) + d, n, 1, True))
+        out.append(Config("PeriodicDiskRevolve", (1,) + d, n, 1, True))
+        out.append(Config("SingleDiskCopy", (), n, 2, True))
+        out.append(Config("SingleMemory", (), n, 2, True))
     # many adjoint calculations on one object ("arbitrarily many")
     many = 1300 if tier == "quick" else 3500
     out.append(Config("SingleMemory", (), 1, many))
